@@ -101,9 +101,13 @@ def main():
     # ---------------------------------------------------------------- deductive part
     sidecars = pyrun.load_sidecars(list(plan.get("sidecars", [])))
     selection = []
+    assumed_contracts = []
     for mod in plan.get("sidecars", []):
         for c in sidecars[mod]:
             if prop in c.prop:
+                if c.kind == "assumed":
+                    assumed_contracts.append(f"{c.name} on {c.target}: {c.notes or '; '.join(c.ensures)}")
+                    continue
                 if tier == "quick" and getattr(c, "thorough_only", False):
                     continue
                 selection.append((mod, c.name))
@@ -267,6 +271,7 @@ def main():
         "samples": samples,
         "extras": extras,
         "bounded_checks": bounded,
+        "assumed_contracts": assumed_contracts,
         "degraded_functions": [r["contract"] for r in degraded],
         "explanation": plan.get("explanation", ""),
         "undecided": status["undecided"][:50],
